@@ -102,7 +102,19 @@ pub fn check_shape(mode: GameMode, pts: &[PathControlPoint], bufs: &mut CurveBuf
         }
     }
     let last_two_equal = np.len() >= 2 && np[np.len() - 1] == np[np.len() - 2];
-    for l in len_menu(nd) {
+    // boundary rule: also cut exactly at vertices (all of them on short paths,
+    // otherwise the first few and those of repeated vertices)
+    let mut menu = len_menu(nd);
+    let nl = nat.lengths();
+    let mut extra = 0;
+    for i in 1..np.len().min(nl.len()) {
+        let repeated = np[i] == np[i - 1] || (i + 1 < np.len() && np[i] == np[i + 1]);
+        if nl[i] > 0.0 && (np.len() <= 12 || i <= 3 || (repeated && extra < 8)) {
+            menu.push(nl[i]);
+            extra += 1;
+        }
+    }
+    for l in menu {
         let c = Curve::new(mode, pts, Some(l), bufs);
         acc.evals += 1;
         acc.transitions += 1;
